@@ -369,6 +369,19 @@ class C20(Prop):
                                  "after step %d %r: $schema=%r selects %s (warned=%r), model %s (warn=%r)" % (
                                      n, st_, spelling, got.__name__, warned, want.__name__, warn))
                         return
+            # a resolver built NOW knows, for every registered id, the metaschema of the class registered under it now
+            fresh = V.RefResolver("", {})
+            for rid, c_ in table.items():
+                try:
+                    doc = fresh.store[rid]
+                except KeyError:
+                    res.fail(("registry", "new-resolver-lacks-registered-metaschema"), "after step %d %r: %r" % (n, st_, rid))
+                    return
+                if impl.cj(doc) != impl.cj(c_.META_SCHEMA):
+                    res.fail(("registry", "new-resolver-has-a-stale-metaschema"),
+                             "after step %d %r: a resolver built now serves, for %r, a document that is not the META_SCHEMA "
+                             "of %s" % (n, st_, rid, c_.__name__))
+                    return
             # the command line's --validator takes a name: a bare one means the attribute of the jsonschema package
             from jsonschema import cli
             for d in impl.DRAFTS:
